@@ -72,6 +72,10 @@ def tlc(work, module, cfg_text, workers=8, timeout=1800, extra=(), jvm=None, tag
         f.write(out)
     m = STATE_RE.findall(out)
     gen, dist = (int(m[-1][0]), int(m[-1][1])) if m else (0, 0)
+    if not m:
+        ms = re.findall(r"The number of states generated: (\d+)", out)
+        if ms:
+            gen = dist = int(ms[-1])
     return dict(rc=p.returncode, out=out, generated=gen, distinct=dist, wall=dt)
 
 
@@ -236,6 +240,26 @@ def run_phase(ctx, ph):
     tier, seed, work = ctx.tier, ctx.seed, ctx.work
     phase_ev = dict(name=name)
     cases_path = None
+    if "mc" in ph:
+        # step A only: exhaustive model checking of a bounded instance (no emission)
+        g = ph["mc"]
+        cfg = g["cfg"](tier, seed) if callable(g["cfg"]) else g["cfg"]
+        r = tlc(work, g["module"], cfg, workers=g.get("workers", 16), timeout=g.get("timeout", 3000), tag="mc_" + name)
+        expect = g.get("expect_violation")
+        if expect:
+            # negative control: a deliberately wrong design must be caught by the named invariant/property
+            if expect not in r["out"] or "is violated" not in r["out"]:
+                raise Infra(f"{name}: mutant model was NOT rejected by {expect}: the invariant is vacuous")
+            ctx.ev["mutants"].append(dict(name=name, violated=expect, states=r["distinct"]))
+            log(f"{name}: mutant model correctly violates {expect}")
+        else:
+            tlc_ok(r, f"{name}: model checking {g['module']}")
+            ctx.ev["states"] += r["distinct"]
+            ctx.ev["transitions"] += r["generated"]
+            phase_ev.update(model=g["module"], states=r["distinct"], transitions=r["generated"], tlc_wall=round(r["wall"], 1))
+            log(f"{name}: {g['module']} checked: {r['distinct']} distinct states in {r['wall']:.1f}s")
+            ctx.ev["phases"].append(phase_ev)
+        return
     # ---- A: model checking + case emission
     if "gen" in ph:
         g = ph["gen"]
@@ -326,11 +350,15 @@ def validate(ctx, name, v, trace_path, count=True):
     if r["rc"] == 124:
         raise Infra(f"{name}: trace validation timed out")
     if v.get("searching"):
-        # searching trace spec: rejection = postcondition violated / deadlock; handled by plan hook
-        return v["interpret"](ctx, name, r, trace_path)
+        return validate_searching(ctx, name, v, trace_path, cfg, r)
     tlc_ok(r, f"{name}: trace validation with {v['module']}")
     if "AllConsumed" in cfg and "is violated" in r["out"]:
         raise Infra(f"{name}: trace spec did not consume the whole trace")
+    mcons = re.findall(r'"CONSUMED (\d+)"', r["out"])
+    if mcons and int(mcons[-1]) < count_lines(trace_path):
+        # every case that deviates is skipped by the total spec, so all lines must have been consumed
+        if not parse_tlc_lines(r["out"], "BAD"):
+            raise Infra(f"{name}: trace spec consumed {mcons[-1]} of {count_lines(trace_path)} lines without reporting a deviation")
     bads = parse_tlc_lines(r["out"], "BAD")
     # a BAD line may be printed more than once: de-duplicate
     uniq = {}
@@ -338,6 +366,45 @@ def validate(ctx, name, v, trace_path, count=True):
         uniq[(b.get("id"), b.get("variant"), dev_key(b))] = b
     bads = list(uniq.values())
     log(f"{name}: {v['module']} validated {count_lines(trace_path)} lines in {r['wall']:.1f}s: {len(bads)} deviation(s)")
+    return bads
+
+
+def validate_searching(ctx, name, v, trace_path, cfg, r):
+    """Searching trace spec: the log is accepted iff TLC finds a behaviour consuming every line (reported as a violation of
+    the invariant NotAccepted).  A rejected log is attributed to the episode at the high-water mark; that episode is reported,
+    removed, and the rest is searched again, so that every episode gets a verdict."""
+    work = ctx.work
+    local = os.path.join(work, "trace.ndjson")
+    bads = []
+    for attempt in range(6):
+        if "Invariant NotAccepted is violated" in r["out"]:
+            log(f"{name}: {v['module']} accepted {count_lines(local)} events in {r['wall']:.1f}s ({r['distinct']} states searched)")
+            return bads
+        if "Model checking completed. No error has been found." not in r["out"]:
+            raise Infra(f"{name}: searching validation did not finish normally (rc={r['rc']}):\n" + tail(r["out"]))
+        hw = re.findall(r'"HIGHWATER (\d+)"', r["out"])
+        if not hw:
+            raise Infra(f"{name}: rejected trace without a high-water mark")
+        hw = int(hw[-1])
+        lines = [json.loads(x) for x in open(local) if x.strip()]
+        if hw < 1 or hw > len(lines):
+            raise Infra(f"{name}: high-water mark {hw} outside the trace")
+        stuck = lines[hw - 1]
+        ep = stuck.get("id")
+        res = stuck.get("res") or {}
+        bads.append(dict(id=ep, variant="free-running", rules=["no-spec-behaviour-explains-the-log"],
+                         why=f"{stuck.get('ev')}-{res.get('kind', '')}", expected="a behaviour of CRLCache.tla consuming the whole episode",
+                         got=dict(stuck_at=stuck, longest_matched_prefix=hw - 1)))
+        log(f"{name}: episode {ep} REJECTED at event {stuck.get('seq')} ({stuck.get('ev')} {res}); searching the remaining episodes")
+        rest = [x for x in lines if x.get("id") != ep]
+        if not rest:
+            return bads
+        with open(local, "w") as f:
+            for x in rest:
+                f.write(json.dumps(x) + "\n")
+        r = tlc(work, v["module"], cfg, workers=1, timeout=v.get("timeout", 3000), jvm=v.get("jvm"), tag=f"val_{name}_{attempt}")
+        if r["rc"] == 124:
+            raise Infra(f"{name}: searching validation timed out")
     return bads
 
 
